@@ -217,10 +217,12 @@ class cstruct:
         Raises:
             ValueError: If the type already exists.
         """
-        if not replace and (
-            name in self.typedefs and not _same_type(self.resolve(self.typedefs[name]), self.resolve(type_))
-        ):
-            raise ValueError(f"Duplicate type: {name}")
+        if not replace and name in self.typedefs:
+            if not _same_type(self.resolve(self.typedefs[name]), self.resolve(type_)):
+                raise ValueError(f"Duplicate type: {name}")
+
+            # The same target again: what is there stays, other aliases of it keep resolving to the very same type
+            return
 
         self.typedefs[name] = type_
 
